@@ -486,4 +486,226 @@ Section TP.
     - apply step_resize; assumption.
     - apply step_copy; assumption.
   Qed.
+
+  (* ---------------------------------------------------------------- histories *)
+  Lemma t_inv_empty : t_inv t_empty.
+  Proof.
+    split; [apply pre_inv_fresh|]. left. unfold TableModel.t_empty, TableModel.nslots. simpl.
+    rewrite repeat_length. apply (ideal_gt 0).
+  Qed.
+
+  Lemma R_empty : R t_empty [].
+  Proof.
+    split; [constructor|]. intros e. unfold TableModel.t_empty, TableModel.t_iter. simpl.
+    rewrite entries_repeat. tauto.
+  Qed.
+
+  Lemma run_refines : forall ops t m, t_inv t -> R t m ->
+    t_inv (t_run ops t) /\ R (t_run ops t) (spec_run ops m).
+  Proof.
+    induction ops as [|o ops IH]; intros t m Hi Hr; [split; assumption|].
+    destruct (step_refines t m o Hi Hr) as [Hi' [Hr' _]].
+    unfold TableModel.t_run, TableModel.spec_run. simpl. apply IH; assumption.
+  Qed.
+
+  Theorem refines_map ops o :
+    let t := t_run ops t_empty in
+    let m := spec_run ops [] in
+    t_inv t /\ R t m /\ snd (t_step t o) = snd (spec_step m o).
+  Proof.
+    intros t m. destruct (run_refines ops t_empty [] t_inv_empty R_empty) as [Hi Hr].
+    fold t in Hi, Hr. fold m in Hr. split; [exact Hi|]. split; [exact Hr|].
+    apply (step_refines t m o Hi Hr).
+  Qed.
+
+  (* ---------------------------------------------------------------- corollaries *)
+  Lemma spec_out_ok m o : snd (spec_step m o) <> OFuel V /\ snd (spec_step m o) <> OCrash V.
+  Proof.
+    destruct o; unfold TableModel.spec_step;
+      repeat match goal with |- context [match ?x with _ => _ end] => destruct x end;
+      simpl; split; discriminate.
+  Qed.
+
+  (* termination / fuel adequacy and no undefined behaviour of the model *)
+  Lemma step_total t o : t_inv t -> snd (t_step t o) <> OFuel V /\ snd (t_step t o) <> OCrash V.
+  Proof.
+    intros [Hp Hl]. destruct (step_refines t (t_iter t) o (conj Hp Hl) (R_exists t Hp)) as [_ [_ Ho]].
+    rewrite Ho. apply spec_out_ok.
+  Qed.
+
+  Lemma inv_len t m : t_inv t -> R t m -> t_len t = length m.
+  Proof. intros [Hp _] Hr. apply R_len; assumption. Qed.
+
+  Lemma inv_iter_keys t m : t_inv t -> R t m ->
+    NoDup (map fst (t_iter t)) /\ Permutation (t_iter t) m /\
+    (forall k, In k (map fst (t_iter t)) <-> a_get m k <> None).
+  Proof.
+    intros [Hp _] Hr. split; [apply iter_nodup; assumption|]. split; [apply R_perm; assumption|].
+    intros k. rewrite (a_get_none K V keq keq_spec m k).
+    pose proof (Permutation_map fst (R_perm t m Hp Hr)) as Hpm.
+    split.
+    - intros Hin Hnot. apply Hnot. apply (Permutation_in _ Hpm). assumption.
+    - intros Hnn. destruct (in_dec (fun a b => match bool_dec (keq a b) true with
+                                             | left e => left (proj1 (keq_spec a b) e)
+                                             | right ne => right (fun eq => ne (proj2 (keq_spec a b) eq)) end)
+                              k (map fst m)) as [Hin|Hnin]; [|contradiction].
+      apply (Permutation_in _ (Permutation_sym Hpm)). assumption.
+  Qed.
+
+  Lemma inv_get t m k : t_inv t -> R t m ->
+    snd (t_step t (TGet K V k)) = match a_get m k with Some v => OVal V v | None => ORaise V KeyError end /\
+    snd (t_step t (TMem K V k)) = OBool V (match a_get m k with Some _ => true | None => false end).
+  Proof.
+    intros Hi Hr. destruct (step_get t m k Hi Hr) as [_ [_ Hg]]. destruct (step_mem t m k Hi Hr) as [_ [_ Hm]].
+    rewrite Hg, Hm. unfold TableModel.spec_step. destruct (a_get m k); split; reflexivity.
+  Qed.
+
+  Lemma inv_absent t m k : t_inv t -> R t m -> a_get m k = None ->
+    t_step t (TGet K V k) = (t, ORaise V KeyError) /\ t_step t (TRem K V k) = (t, ORaise V KeyError).
+  Proof.
+    intros Hi Hr Hg. split.
+    - unfold TableModel.t_step. rewrite (lookup_refines t m k Hi Hr), Hg. reflexivity.
+    - destruct (step_rem t m k Hi Hr) as [_ [_ Ho]]. unfold TableModel.spec_step in Ho. rewrite Hg in Ho. simpl in Ho.
+      revert Ho. unfold TableModel.t_step.
+      repeat match goal with |- context [match ?x with _ => _ end] => destruct x end; simpl; intros; congruence.
+  Qed.
+
+  Lemma spec_run_app ops1 ops2 m : spec_run (ops1 ++ ops2) m = spec_run ops2 (spec_run ops1 m).
+  Proof. apply fold_left_app. Qed.
+
+  Lemma spec_run_clear ops ops' : spec_run (ops ++ TResize K V 0 :: ops') [] = spec_run ops' [].
+  Proof. rewrite spec_run_app. reflexivity. Qed.
 End TP.
+
+(* ---------------------------------------------------------------- the generated rule and sizes *)
+Lemma table_swap_strict j p : table_swap j p = true -> p < j.
+Proof. unfold table_swap. intros H. apply Nat.ltb_lt in H. exact H. Qed.
+
+Lemma table_swap_ge j p : table_swap j p = false -> j <= p.
+Proof. unfold table_swap. intros H. apply Nat.ltb_ge in H. exact H. Qed.
+
+(* ---------------------------------------------------------------- final forms (Properties_C02.v) *)
+(* the model with everything that is re-extracted from the C source plugged in *)
+Definition T_empty (K V : Type) : table K V := t_empty K V table_primes table_load_num table_load_den.
+Definition T_step (K V : Type) (keq : K -> K -> bool) (hash : K -> N) : table K V -> op K V -> table K V * out V :=
+  t_step K V keq hash table_swap table_primes table_load_num table_load_den.
+Definition T_run (K V : Type) (keq : K -> K -> bool) (hash : K -> N) (ops : list (op K V)) : table K V :=
+  t_run K V keq hash table_swap table_primes table_load_num table_load_den ops (T_empty K V).
+
+Lemma t_inv_unfold K V hash (t : table K V) :
+  t_inv K V hash t <->
+  ((RHL (entry K V) (slots K V t) /\
+    WF K (entry K V) fst (fun k => home K hash k (nslots K V t)) (slots K V t) /\
+    UQ K (entry K V) fst (slots K V t)) /\
+   nitems K V t = occupied (entry K V) (slots K V t)) /\
+  (nitems K V t < nslots K V t \/ nslots K V t = 0).
+Proof. reflexivity. Qed.
+
+Lemma R_unfold K V (t : table K V) (m : amap K V) :
+  R K V t m <-> NoDup (map fst m) /\ forall e, In e (t_iter K V t) <-> In e m.
+Proof. reflexivity. Qed.
+
+Section Final.
+  Variables K V : Type.
+  Variable keq : K -> K -> bool.
+  Variable hash : K -> N.
+  Hypothesis keq_spec : forall a b, keq a b = true <-> a = b.
+
+  Local Notation t_inv := (t_inv K V hash).
+  Local Notation R := (R K V).
+  Local Notation T_step := (T_step K V keq hash).
+  Local Notation T_run := (T_run K V keq hash).
+  Local Notation spec_step := (spec_step K V keq).
+  Local Notation spec_run := (spec_run K V keq).
+  Local Notation a_get := (a_get K V keq).
+
+  Lemma T_inv_empty : t_inv (T_empty K V).
+  Proof. apply t_inv_empty. exact ideal_gt. Qed.
+
+  Lemma T_step_refines (t : table K V) (m : amap K V) (o : op K V) : t_inv t -> R t m ->
+    t_inv (fst (T_step t o)) /\ R (fst (T_step t o)) (fst (spec_step m o)) /\
+    snd (T_step t o) = snd (spec_step m o).
+  Proof. apply (step_refines K V keq hash table_swap _ _ _ keq_spec table_swap_strict table_swap_ge ideal_gt). Qed.
+
+  Lemma T_step_total (t : table K V) (o : op K V) : t_inv t ->
+    snd (T_step t o) <> OFuel V /\ snd (T_step t o) <> OCrash V.
+  Proof. apply (step_total K V keq hash table_swap _ _ _ keq_spec table_swap_strict table_swap_ge ideal_gt). Qed.
+
+  Lemma T_refines_map (ops : list (op K V)) (o : op K V) :
+    let t := T_run ops in
+    let m := spec_run ops [] in
+    t_inv t /\ R t m /\ snd (T_step t o) = snd (spec_step m o).
+  Proof. apply (refines_map K V keq hash table_swap _ _ _ keq_spec table_swap_strict table_swap_ge ideal_gt). Qed.
+
+  Lemma T_len_iter (ops : list (op K V)) :
+    let t := T_run ops in
+    let m := spec_run ops [] in
+    t_len K V t = length m /\
+    NoDup (map fst (t_iter K V t)) /\
+    Permutation (t_iter K V t) m /\
+    (forall k, In k (map fst (t_iter K V t)) <-> a_get m k <> None).
+  Proof.
+    intros t m. destruct (T_refines_map ops (TSelfCopy K V)) as [Hi [Hr _]]. fold t in Hi, Hr. fold m in Hr.
+    split; [apply (inv_len K V hash t m Hi Hr)|]. apply (inv_iter_keys K V keq hash keq_spec t m Hi Hr).
+  Qed.
+
+  Lemma T_get_mem (ops : list (op K V)) (k : K) :
+    let t := T_run ops in
+    let m := spec_run ops [] in
+    snd (T_step t (TGet K V k)) = match a_get m k with Some v => OVal V v | None => ORaise V KeyError end /\
+    snd (T_step t (TMem K V k)) = OBool V (match a_get m k with Some _ => true | None => false end).
+  Proof.
+    intros t m. destruct (T_refines_map ops (TSelfCopy K V)) as [Hi [Hr _]].
+    apply (inv_get K V keq hash table_swap table_primes table_load_num table_load_den keq_spec t m k Hi Hr).
+  Qed.
+
+  Lemma T_absent_keyerror (ops : list (op K V)) (k : K) :
+    let t := T_run ops in
+    let m := spec_run ops [] in
+    a_get m k = None ->
+    T_step t (TGet K V k) = (t, ORaise V KeyError) /\ T_step t (TRem K V k) = (t, ORaise V KeyError).
+  Proof.
+    intros t m. destruct (T_refines_map ops (TSelfCopy K V)) as [Hi [Hr _]].
+    apply (inv_absent K V keq hash table_swap _ _ _ keq_spec table_swap_strict table_swap_ge ideal_gt t m k Hi Hr).
+  Qed.
+
+  (* resize(t, 0) frees the slot array; whatever came before, the table then behaves as a new one *)
+  Lemma T_emptied_keeps_working (ops ops' : list (op K V)) (o : op K V) :
+    let t := T_run (ops ++ TResize K V 0 :: ops') in
+    let m := spec_run ops' [] in
+    t_inv t /\ R t m /\ snd (T_step t o) = snd (spec_step m o).
+  Proof.
+    intros t m. pose proof (T_refines_map (ops ++ TResize K V 0 :: ops') o) as H.
+    cbv zeta in H. rewrite spec_run_clear in H. exact H.
+  Qed.
+End Final.
+
+(* ---------------------------------------------------------------- the old rule `if (j >= p)` *)
+Local Open Scope Z_scope.
+Definition nonstrict_swap (j p : nat) : bool := (p <=? j)%nat.
+Definition witness_ops : list (op Z Z) := [TSet Z Z 55 1; TSet Z Z 110 2; TSet Z Z 55 3].
+
+(* with the pinned rule the refinement fails for the identity hash: keys 55 and 110 share a
+   home slot (both are 0 modulo 5); updating the older one inserts it a second time *)
+Lemma T_nonstrict_refuted :
+  exists (hash : Z -> N) (ops : list (op Z Z)),
+    let t := t_run Z Z Z.eqb hash nonstrict_swap table_primes table_load_num table_load_den ops (T_empty Z Z) in
+    let m := spec_run Z Z Z.eqb ops [] in
+    t_len Z Z t = 3%nat /\ length m = 2%nat /\
+    map fst (t_iter Z Z t) = [55; 110; 55] /\ map fst m = [55; 110].
+Proof. exists Z.to_N, witness_ops. vm_compute. repeat split; reflexivity. Qed.
+
+(* non-vacuity: a reachable table with three keys sharing the LAST slot of five as home (so two
+   of them wrapped around to slots 0 and 1), satisfying the invariant and the relation *)
+Definition example_ops : list (op Z Z) := [TSet Z Z 4 1; TSet Z Z 9 2; TSet Z Z 14 3; TSet Z Z 3 4].
+
+Lemma T_inv_nonvacuous :
+  exists (t : table Z Z) (m : amap Z Z),
+    t_inv Z Z Z.to_N t /\ R Z Z t m /\
+    slots Z Z t = [Some (4%nat, (9, 2)); Some (4%nat, (14, 3)); None; Some (3%nat, (3, 4)); Some (4%nat, (4, 1))] /\
+    m = [(3, 4); (14, 3); (9, 2); (4, 1)].
+Proof.
+  exists (T_run Z Z Z.eqb Z.to_N example_ops), (spec_run Z Z Z.eqb example_ops []).
+  destruct (T_refines_map Z Z Z.eqb Z.to_N Z.eqb_eq example_ops (TSelfCopy Z Z)) as [Hi [Hr _]].
+  split; [exact Hi|]. split; [exact Hr|]. split; vm_compute; reflexivity.
+Qed.
